@@ -56,6 +56,25 @@ type SEmbed struct {
 	Inner
 	Z []byte
 }
+// three levels of embedding: the promoted fields X, Y, Z have index paths of length 4
+type L3 struct {
+	X int8
+	Y string
+	Z bool
+}
+type L2 struct {
+	C uint8
+	L3
+}
+type L1 struct {
+	B uint16
+	L2
+}
+type SDeep struct {
+	A int
+	L1
+	D []byte
+}
 type SPtr struct {
 	P *uint16
 	R *Inner
@@ -135,7 +154,7 @@ func init() {
 		"bstr.bstr.u8": t(cbor.Bstr[cbor.Bstr[uint8]]{}), "slice.bstr.int": t([]cbor.Bstr[int](nil)),
 		"bwbytes": t(cbor.ByteWrap[[]byte]{}), "bw.text": t(cbor.ByteWrap[string]{}), "raw": t(cbor.RawBytes(nil)),
 		"cert": t((*cbor.X509Certificate)(nil)), "csr": t(cbor.X509CertificateRequest{}), "timestamp": t(cbor.Timestamp{}), "label": t(cose.Label{}),
-		"SOmit": t(SOmit{}), "SOmit2": t(SOmit2{}), "SOmit3": t(SOmit3{}), "SWeights": t(SWeights{}), "SEmbed": t(SEmbed{}), "SPtr": t(SPtr{}),
+		"SOmit": t(SOmit{}), "SOmit2": t(SOmit2{}), "SOmit3": t(SOmit3{}), "SWeights": t(SWeights{}), "SEmbed": t(SEmbed{}), "SDeep": t(SDeep{}), "SPtr": t(SPtr{}),
 		"SNest": t(SNest{}), "SInts": t(SInts{}), "SAny": t(SAny{}), "SHdr": t(SHdr{}), "SCert": t(SCert{}), "SEmpty": t(SEmpty{}), "SBw": t(SBw{}),
 		"slice.SPtr": t([]SPtr(nil)),
 		// wire types outside package fdo
